@@ -236,7 +236,10 @@ func (ma *multiAsker) serveLoops(ctx context.Context) error {
 			}
 		})
 	}
-	return eg.Wait()
+	err := eg.Wait()
+	// the transports are gone: nobody will be served any more
+	ma.asks.CloseWithError(err)
+	return err
 }
 
 type multiSecure[Pub any] map[string]p2p.Secure[p2p.Addr, Pub]
